@@ -1,5 +1,9 @@
 """helpers shared by the property modules"""
-from .. import drive, engine, model, traceana
+import re
+
+from hypothesis import strategies as st
+
+from .. import drive, engine, model, traceana  # noqa: F401
 
 
 def with_prefix(case_spec):
@@ -18,9 +22,17 @@ def run_escaped(run, sig_prefix):
         if ln.strip().startswith('File '):
             where = ln.strip()
             break
-    # SystemExit from option errors etc. is handled by callers
-    return [('%s/run-aborted/%s' % (sig_prefix, type(run.exc).__name__),
-             'exception escaped the run: %s: %s  [%s]' % (type(run.exc).__name__, run.exc, where))]
+    m = re.search(r'File ".*?/([^/"]+)", line \d+, in (\w+)', where)
+    site = '%s:%s' % (m.group(1), m.group(2)) if m else '?'
+    return [('%s/run-aborted/%s@%s' % (sig_prefix, type(run.exc).__name__, site),
+             'exception escaped the run: %s: %s  [%s]' % (type(run.exc).__name__, _safe(run.exc), where))]
+
+
+def _safe(e):
+    try:
+        return str(e)
+    except Exception:  # noqa: BLE001
+        return '<unprintable>'
 
 
 def skipped_layers(spec):
@@ -38,3 +50,75 @@ def count_kinds(spec):
     for node, t in iter_tests(spec):
         d[t['k']] = d.get(t['k'], 0) + 1
     return d
+
+
+def args_of(opts):
+    """option dict -> runner command line (everything except the discovery options)"""
+    args = []
+    for p in opts.get('test') or ():
+        args += ['-t', p]
+    for p in opts.get('module') or ():
+        args += ['-m', p]
+    for p in opts.get('layer') or ():
+        args += ['--layer', p]
+    if opts.get('unit'):
+        args.append('-u')
+    if opts.get('non_unit'):
+        args.append('-f')
+    if opts.get('all'):
+        args.append('--all')
+    if opts.get('at_level') is not None:
+        args += ['--at-level', str(opts['at_level'])]
+    if opts.get('only_level') is not None:
+        args += ['--only-level', str(opts['only_level'])]
+    if opts.get('repeat', 1) and opts.get('repeat', 1) > 1:
+        args += ['--repeat', str(opts['repeat'])]
+    if opts.get('shuffle') is not None:
+        if opts['shuffle'] == 'noseed':
+            args += ['--shuffle']
+        else:
+            args += ['--shuffle', '--shuffle-seed', str(opts['shuffle'])]
+    args += ['-v'] * opts.get('verbose', 0)
+    if opts.get('buffer'):
+        args.append('--buffer')
+    if opts.get('stop'):
+        args.append('-x')
+    if opts.get('j'):
+        args += ['-j', str(opts['j'])]
+    if opts.get('list'):
+        args.append('--list-tests')
+    if opts.get('xml'):
+        args += ['--xml', opts['xml']]
+    for p in opts.get('ignore_threads') or ():
+        args += ['--ignore-new-thread', p]
+    args += list(opts.get('extra') or ())
+    return args
+
+
+def layer_pattern_strategy(spec_layers_names):
+    """--layer patterns that name generated layers (positive and negated)"""
+    names = list(spec_layers_names)
+    if not names:
+        return st.just([])
+    pat = st.sampled_from(names).map(lambda n: n + '$')
+    neg = st.sampled_from(names).map(lambda n: '!' + n + '$')
+    return st.lists(st.one_of(pat, pat, neg), max_size=3)
+
+
+def runnable_layers(w, spec):
+    """indices of layers whose whole stack can be set up (no setUp fault anywhere in the closure)"""
+    ok = set()
+    for i, L in enumerate(spec['layers']):
+        bad = False
+        for j in w.clo(i):
+            f = (spec['layers'][j].get('faults') or {})
+            if 'setUp' in f and w.has(j, 'setUp'):
+                bad = True
+        if not bad:
+            ok.add(i)
+    return ok
+
+
+def test_starts(trace):
+    """list of (pid, id) for every test whose setUp was reached"""
+    return [(e['pid'], e['id']) for e in trace if e['ev'] == 'T' and e['ph'] == 'setUp']
